@@ -159,25 +159,41 @@ def _not_zombie_of_ours(pid):
 
 
 def run_scenario(chk, mos, model, state, script, rng, workdir, jitter, dist, tag):
+    if len(chk.violations) >= 5:
+        dist["skipped_after_5_violations"] = dist.get("skipped_after_5_violations", 0) + 1
+        return                                   # the verdict is decided; do not spend the budget on more of the same
     bound = SLOW_BOUND if script in SLOW_ORDERS else NORMAL_BOUND
+    if dist.get("hang", 0) >= 2:
+        bound = min(bound, 5.0)                  # two hangs were established with the full bound already
     m = model.call(dict(cmd="outcomes", script=script, **model_state(state)))
     if "outcomes" not in m:
         chk.tie_break("model", "mosmodel_c20 failed: %s" % m, {"state": state, "script": script})
         return
-    sess = None
-    try:
-        sess = Session(mos, state, workdir)
-        if sess.setup_error:
-            chk.tie_break("setup", "could not reach session state %s: %s" % (state, sess.setup_error), {"state": state})
+    for attempt in range(3):
+        sess = None
+        try:
+            sess = Session(mos, state, workdir)
+            if sess.setup_error:
+                if attempt < 2:
+                    continue
+                chk.tie_break("setup", "could not reach session state %s: %s" % (state, sess.setup_error), {"state": state})
+                return
+            trace = sess.play(script, rng, jitter, False)
+            obs = sess.observe(bound)
+            port_taken = "Couldn't listen on port" in sess.lsp.stderr_tail(4000)
+        except Exception as e:
+            if attempt < 2:
+                continue
+            chk.tie_break("driver", "scenario %s/%s could not be played: %s: %s" % (state, script, type(e).__name__, e), {"state": state, "script": script})
             return
-        trace = sess.play(script, rng, jitter, False)
-        obs = sess.observe(bound)
-    except Exception as e:
-        chk.tie_break("driver", "scenario %s/%s could not be played: %s: %s" % (state, script, type(e).__name__, e), {"state": state, "script": script})
-        return
-    finally:
-        if sess is not None:
-            sess.close()
+        finally:
+            if sess is not None:
+                sess.close()
+        if port_taken and attempt < 2:
+            # another process took the debug port between the client's choice and mos' bind: not the scenario we wanted to see
+            dist["port_taken_retries"] = dist.get("port_taken_retries", 0) + 1
+            continue
+        break
     want = "exit%d" % int(m["expect"])
     dist[obs["class"]] = dist.get(obs["class"], 0) + 1
     dist["max_elapsed"] = max(dist.get("max_elapsed", 0.0), obs["elapsed"])
